@@ -143,116 +143,77 @@ func (p *Program) NewLabel() Label {
 
 // Assemble resolves all jump destinations to concrete instructions using the labels.
 // This method takes care of long jumps and resolves them by using early returns or unconditional long jumps.
+//
+// The program is laid out from its last instruction to its first one. Jumps only go forward, so
+// when a jump is laid out everything it can reach already has its final distance to the end of
+// the program, and instructions that are added in front of it later do not change that distance.
 func (p *Program) Assemble() ([]bpf.Instruction, error) {
+	jumps := make(map[Index]JumpIf, len(p.jumps))
 	for _, jump := range p.jumps {
-		// This is safe since we are only accessing instructions that were inserted as bpf.JumpIf.
-		jumpInst := p.instructions[jump.index].(bpf.JumpIf)
-
-		skip, err := p.resolveLabel(jump, jump.trueLabel)
-		if err != nil {
-			return nil, err
-		}
-		jumpInst.SkipTrue = skip
-
-		skip, err = p.resolveLabel(jump, jump.falseLabel)
-		if err != nil {
-			return nil, err
-		}
-		jumpInst.SkipFalse = skip
-
-		if jumpInst.SkipTrue == 0 && jumpInst.SkipFalse == 0 {
-			return nil, fmt.Errorf("useless jump found")
-		}
-
-		p.instructions[jump.index] = jumpInst
+		jumps[jump.index] = jump
 	}
-
-	return p.instructions, nil
-}
-
-// resolveLabel resolves the label to a short jump.
-func (p *Program) resolveLabel(jump JumpIf, label Label) (uint8, error) {
-	dest := p.labels[label]
-	skipN := p.computeSkipN(jump, label)
-
-	for skipN < 0 {
-		dest = dest[1:]
-		if len(dest) == 0 {
-			return 0, fmt.Errorf("backward jumps are not supported")
-		}
-		p.labels[label] = dest
-		skipN = p.computeSkipN(jump, label)
-	}
-
-	// BPF does not support long conditional jumps.
-	if skipN > math.MaxUint8 {
-		insertAfter := findInsertAfter(p.jumps, jump)
-
-		// If the jump destination is a return instruction, copy it and add an early return,
-		// if not, insert a long jump.
-		jumpDest := p.instructions[dest[0]]
-		if _, ok := jumpDest.(bpf.RetConstant); !ok {
-			jumpDest = bpf.Jump{Skip: uint32(skipN - int(insertAfter.index))}
-		}
-
-		insertIndex := p.insertAfter(insertAfter.index, jumpDest)
-		p.labels[label] = append([]Index{insertIndex}, dest...)
-		skipN = p.computeSkipN(jump, label)
-	}
-	return uint8(skipN), nil
-}
-
-// Inserts the instruction after the instruction indicated by index, which must come from p.jumps.
-func (p *Program) insertAfter(index Index, inst bpf.Instruction) Index {
-	// This is safe since we are only accessing instructions that were inserted as bpf.JumpIf.
-	jumpInst := p.instructions[index].(bpf.JumpIf)
-	p.instructions[index] = jumpInst
-
-	index++
-	p.instructions = append(p.instructions[:index+1], p.instructions[index:]...)
-	p.instructions[index] = inst
-	p.updateIndices(index)
-	return index
-}
-
-// After inserting a new instruction into the instruction list, the indices are wrong.
-// This method updates all indices after the instruction point.
-func (p *Program) updateIndices(after Index) {
-	for i := range p.jumps {
-		if p.jumps[i].index >= after {
-			p.jumps[i].index++
+	labelsAt := make(map[Index][]Label, len(p.labels))
+	for label, indices := range p.labels {
+		for _, index := range indices {
+			labelsAt[index] = append(labelsAt[index], label)
 		}
 	}
 
-	for _, v := range p.labels {
-		for i := range v {
-			if v[i] >= after {
-				v[i]++
+	// out holds the instructions in reverse order. dest maps a label to the length of out
+	// right after the closest destination for the label was added.
+	out := make([]bpf.Instruction, 0, len(p.instructions))
+	dest := make(map[Label]int, len(p.labels))
+
+	// BPF does not support long conditional jumps. If the destination is too far away,
+	// put a bridge directly behind the jump: a copy of the destination if it is a return
+	// instruction (early return), a long jump to the destination if not.
+	bridge := func(label Label) error {
+		d, found := dest[label]
+		if !found {
+			return fmt.Errorf("backward jumps are not supported")
+		}
+		if len(out)-d <= math.MaxUint8 {
+			return nil
+		}
+		inst := out[d-1]
+		if _, ok := inst.(bpf.RetConstant); !ok {
+			inst = bpf.Jump{Skip: uint32(len(out) - d)}
+		}
+		out = append(out, inst)
+		dest[label] = len(out)
+		return nil
+	}
+
+	for i := len(p.instructions) - 1; i >= 0; i-- {
+		inst := p.instructions[i]
+		if jump, ok := jumps[Index(i)]; ok {
+			// This is safe since we are only accessing instructions that were inserted as bpf.JumpIf.
+			jumpInst := inst.(bpf.JumpIf)
+
+			// A bridge for one label moves the destination of the other label one instruction away.
+			for _, label := range []Label{jump.falseLabel, jump.trueLabel, jump.falseLabel} {
+				if err := bridge(label); err != nil {
+					return nil, err
+				}
 			}
+			jumpInst.SkipTrue = uint8(len(out) - dest[jump.trueLabel])
+			jumpInst.SkipFalse = uint8(len(out) - dest[jump.falseLabel])
+
+			if jumpInst.SkipTrue == 0 && jumpInst.SkipFalse == 0 {
+				return nil, fmt.Errorf("useless jump found")
+			}
+			inst = jumpInst
+		}
+		out = append(out, inst)
+		for _, label := range labelsAt[Index(i)] {
+			dest[label] = len(out)
 		}
 	}
-}
 
-// Computes the number of instructions to skip by resolving the label.
-// It might be that the jump is a long jump.
-func (p *Program) computeSkipN(jump JumpIf, label Label) int {
-	dest := p.labels[label]
-	return int(dest[0]-jump.index) - 1
-}
-
-// To insert a new instruction into the instruction list, the furthest jump instruction within
-// a short jump is searched.
-// It is necessary to search a jump instruction to jump over the new inserted instruction
-// and do not disturb the program flow.
-func findInsertAfter(jumps []JumpIf, currentJump JumpIf) JumpIf {
-	insertAfter := currentJump
-	maxIndex := currentJump.index + 255
-	for _, jump := range jumps {
-		if jump.index < maxIndex {
-			insertAfter = jump
-		}
+	for i, j := 0, len(out)-1; i < j; i, j = i+1, j-1 {
+		out[i], out[j] = out[j], out[i]
 	}
-	return insertAfter
+	return out, nil
 }
 
 // Calculate the index of the current instruction.
